@@ -14,6 +14,7 @@
     lex_expression_boundaries lex_dollar_escape lex_name_reference
     lookup_attr_prefers_attribute lookup_item_prefers_item lookup_attr_fallback_only_on_failure
     lookup_item_fallback_only_on_failure both_attribute_and_item
+    concrete_evaluator_is_eval concrete_linked rewriting_adds_no_lambda concrete_xform_correct
 -/
 import Genshi.Lemmas.PyEval
 import Genshi.Lemmas.PyXformWF
@@ -21,6 +22,7 @@ import Genshi.Lemmas.PyUnxf
 import Genshi.Lemmas.PyLex
 import Genshi.Props.C13
 import Genshi.Model.PyLookupObj
+import Genshi.Lemmas.PyEvalC
 namespace Genshi.Props.C03
 open Genshi.Py
 
@@ -252,6 +254,64 @@ example : unxf (xform (.lambda [] [.param ['a'] none (some (.name ['b']))] none 
     (.subscript (.attribute (.name ['a']) ['c']) (.name ['d']))))
     = .lambda [] [.param ['a'] none (some (.name ['b']))] none [] none
         (.subscript (.attribute (.name ['a']) ['c']) (.name ['d'])) := xform_invertible _ rfl
+
+/-! ### the concrete, executable instance (`Model/PyEvalC.lean`, verb `C03 ceval` of the driver) -/
+
+/-- **The evaluator that runs in the driver is the evaluator of `xform_correct`.**  `evalD` differs from `eval` in one
+    place: a lambda expression evaluates to a closure *as data* (`mk … body env`) instead of a Lean function handed to
+    `σ.mkFun`.  On every expression without a lambda — operators, comparisons chains, comprehensions and generator
+    expressions with any number of clauses, calls, attribute / item access, displays, slices, in every environment, for
+    every value semantics and lookup — the two are equal.  (With lambdas the two produce different *representations*
+    of the function value; the scoping rules they apply are the same text: `paramScope names b ++ env`, tied to CPython
+    and to genshi by the correspondence stream `ceval`.) -/
+theorem concrete_evaluator_is_eval {V E : Type} (σ : Sem V E) (look : Look V E)
+    (mk : List (Str × Option V) → List (Str × Option V) → Option Str → List (Str × Option V) → Option Str →
+      List Str → PyExpr → Env V → V)
+    (e : PyExpr) (env : Env V) (h : lamFree e = true) : evalD σ look mk e env = eval σ look e env :=
+  evalD_eq_eval σ look mk e env h
+
+/-- **The hypotheses of `xform_correct` hold for the concrete semantics**: with the concrete values (`C.CV`), CPython's
+    operator / container / call semantics on them (`C.sem`), any context data, either lookup mode and the globals
+    `__data__`, `_lookup_name`, `_lookup_attr`, `_lookup_item` of `LookupBase.globals`, calling the helpers applies the
+    lookup rules, string constants denote their strings and the constant names are not shadowed. -/
+theorem concrete_linked (strict : Bool) (data : List (Str × C.CV)) (cc : C.CallT) :
+    Linked (C.sem strict data cc) (C.world strict data) (C.globals strict data) :=
+  C.linked_concrete strict data cc
+
+/-- the rewriting wraps names, attribute and item accesses in calls; it never introduces a lambda -/
+theorem rewriting_adds_no_lambda (e : PyExpr) (h : lamFree e = true) : lamFree (xform e) = true :=
+  lamFree_xf e _ h
+
+/-- **The headline theorem, concretely.**  For every lambda-free expression, every context data, both lookup modes
+    and every way `cc` of calling closure values: what the driver computes for "Python evaluates the rewritten tree
+    with genshi's globals" (`C.runWith true`) equals what it computes for "the documented template semantics of the
+    original tree" (`C.runWith false`) — the two answers the correspondence stream `ceval` compares with
+    `Expression.evaluate` and with CPython.  (The driver's `C.run py … fuel` is `C.runWith py … (C.callAt py … fuel)`:
+    the two modes call closure values through their own mode; on a lambda-free expression over closure-free data no
+    closure value exists — that last step is not proved, see notes/C03.md.) -/
+theorem concrete_xform_correct (strict : Bool) (data : List (Str × C.CV)) (cc : C.CallT) (e : PyExpr)
+    (hok : okScopes e = true) (h : lamFree e = true) :
+    C.runWith true strict data cc e = C.runWith false strict data cc e := by
+  unfold C.runWith
+  simp only [if_true, Bool.false_eq_true, if_false]
+  rw [evalD_eq_eval _ _ _ _ _ (rewriting_adds_no_lambda e h), evalD_eq_eval _ _ _ _ _ h]
+  simp only [C.lookOf, if_true, Bool.false_eq_true, if_false]
+  exact xform_correct _ _ _ (C.linked_concrete strict data cc) e hok
+
+/-- `[x + d.k for x in x if x]`: the loop variable shadows the context name it iterates over; `d.k` falls back to the item -/
+def exConcrete : PyExpr :=
+  .listComp (.binOp (.name ['x']) cs!"Add" (.attribute (.name ['d']) ['k']))
+    [.comp (.name ['x']) (.name ['x']) [.name ['x']] false]
+
+example (strict : Bool) (data : List (Str × C.CV)) (fuel : Nat) :
+    C.runWith true strict data (C.callAt false strict data fuel) exConcrete = C.run false strict data fuel exConcrete :=
+  concrete_xform_correct strict data _ exConcrete (by decide) (by decide)
+
+example : lamFree (xform exConcrete) = true := rewriting_adds_no_lambda exConcrete (by decide)
+
+example : evalD (C.sem false [] (C.callAt false false [] 3)) (C.lookOf false false [] (C.callAt false false [] 3)) C.mkClo exConcrete []
+    = eval (C.sem false [] (C.callAt false false [] 3)) (C.lookOf false false [] (C.callAt false false [] 3)) exConcrete [] :=
+  concrete_evaluator_is_eval _ _ _ exConcrete [] (by decide)
 
 /-! ### where the expressions are: the model of `interpolation.lex` -/
 
